@@ -52,8 +52,11 @@ def check_case(case, rec):
     try:
         sidecar = Sidecar(io.StringIO(json.dumps(b["sidecar"])))
         side_before = copy.deepcopy(sidecar.loaded_dict)
-        if form == "frame":
+        if form in ("frame", "frame-labels"):
             src = pd.DataFrame(b["rows"], columns=b["columns"])
+            if form == "frame-labels":
+                lab = [3 * i + 7 for i in range(len(src))]
+                src.index = lab[len(lab) // 2:] + lab[:len(lab) // 2]
         else:
             src = io.StringIO(tables.to_tsv(b))
         ti = TabularInput(src, sidecar)
@@ -75,7 +78,7 @@ def check_case(case, rec):
     refs = tables.refs_of(b)
     cols = b["columns"]
     for i, row in enumerate(b["rows"]):
-        rrow = [c if (c != "" or form == "frame") else "n/a" for c in row]
+        rrow = [c if (c != "" or form != "tsv") else "n/a" for c in row]
         want = tables.model_row(b, rrow)
         got = hedparse.canon_text(s1[i])
         cell = dict(zip(cols, rrow))
@@ -237,7 +240,7 @@ def run_shard(shard, rec):
             continue
         bearing = [c for c in b["columns"] if c == "HED" or b["kinds"].get(c) in ("categorical", "value")]
         nontriv = len(bearing) >= 2 or bool(tables.refs_of(b))
-        for form in ("frame", "tsv"):
+        for form in ("frame", "tsv") + (("frame-labels",) if k % 4 == 0 else ()):
             case = dict(bundle=b, form=form)
             rec.case((json.dumps(b, sort_keys=True), form), nontriv)
             check_case(case, rec)
